@@ -961,11 +961,11 @@ def _concat(xs, **kw):
 class Prog:
     name: str
     fn: object  # env -> frame
-    site: str  # the rule family it exercises
-    trigger: str = ""  # the shape that matters for the rule (part of the failure signature)
+    site: str  # the rule it exercises
+    case: str = ""  # the shape that matters for the rule (part of the failure signature)
     unordered: bool = False
     noindex: bool = False
-    sels: object = None  # explicit selections (else derived from the pandas result's columns)
+    extra: dict = field(default_factory=dict)  # further signature keys (Concat: axis)
 
 
 NUM = ["a", "b", "c", "k"]
@@ -974,99 +974,105 @@ NUM = ["a", "b", "c", "k"]
 def _programs():
     P = []
 
-    def add(name, fn, site, trigger="", **kw):
-        P.append(Prog(name, fn, site, trigger, **kw))
+    def add(name, fn, site, case="", **kw):
+        P.append(Prog(name, fn, site, case, **kw))
 
     # --- relabelling
-    add("rename", lambda t: t["L"].rename(columns={"a": "A"}), "RenameFrame")
-    add("rename_swap", lambda t: t["L"].rename(columns={"a": "b", "b": "a"}), "RenameFrame", "swap")
-    add("rename_nokey", lambda t: t["L"].rename(columns={"a": "A", "zz": "a"}), "RenameFrame", "mapping key is not a column")
-    add("rename_twice", lambda t: t["L"].rename(columns={"a": "A"}).rename(columns={"a": "A"}), "RenameFrame", "mapping key is not a column")
-    add("rename_chain", lambda t: t["L"].rename(columns={"a": "A"}).rename(columns={"A": "a2", "b": "A"}), "RenameFrame", "chain")
-    add("prefix", lambda t: t["L"].add_prefix("p_"), "AddPrefix")
-    add("suffix", lambda t: t["L"].add_suffix("_s"), "AddSuffix")
-    add("suffix_empty", lambda t: t["L"].add_suffix(""), "AddSuffix", "empty suffix")
-    add("prefix_set_index", lambda t: t["L"].add_prefix("p_").set_index("p_k"), "AddPrefix+SetIndex", unordered=True)
-    add("prefix_sort", lambda t: t["L"].add_prefix("p_").sort_values(["p_b", "p_a"]), "AddPrefix+SortValues")
+    add("rename", lambda t: t["L"].rename(columns={"a": "A"}), "RenameFrame._simplify_up")
+    add("rename_swap", lambda t: t["L"].rename(columns={"a": "b", "b": "a"}), "RenameFrame._simplify_up", "swap")
+    add("rename_nokey", lambda t: t["L"].rename(columns={"a": "A", "zz": "a"}), "RenameFrame._simplify_up", "mapping key is not a column")
+    add("rename_twice", lambda t: t["L"].rename(columns={"a": "A"}).rename(columns={"a": "A"}), "RenameFrame._simplify_up", "mapping key is not a column")
+    add("rename_chain", lambda t: t["L"].rename(columns={"a": "A"}).rename(columns={"A": "a2", "b": "A"}), "RenameFrame._simplify_up", "chain")
+    add("prefix", lambda t: t["L"].add_prefix("p_"), "AddPrefix._simplify_up")
+    add("suffix", lambda t: t["L"].add_suffix("_s"), "AddSuffix._simplify_up")
+    add("suffix_empty", lambda t: t["L"].add_suffix(""), "AddSuffix._simplify_up", "empty suffix")
+    add("prefix_set_index", lambda t: t["L"].add_prefix("p_").set_index("p_k"), "AddPrefix._simplify_up+SetIndex._simplify_up", unordered=True)
+    add("prefix_sort", lambda t: t["L"].add_prefix("p_").sort_values(["p_b", "p_a"]), "AddPrefix._simplify_up+SortValues._simplify_up")
     # --- assign / astype / elemwise
-    add("assign_new", lambda t: t["L"].assign(z=t["L"].a + t["L"].b), "Assign")
-    add("assign_over", lambda t: t["L"].assign(a=t["L"].a * 2), "Assign", "overwrite")
-    add("assign_two", lambda t: t["L"].assign(z=t["L"].a + 1, y=t["L"].b * 2), "Assign", "two keys")
+    add("assign_new", lambda t: t["L"].assign(z=t["L"].a + t["L"].b), "Assign._simplify_up")
+    add("assign_over", lambda t: t["L"].assign(a=t["L"].a * 2), "Assign._simplify_up", "overwrite")
+    add("assign_two", lambda t: t["L"].assign(z=t["L"].a + 1, y=t["L"].b * 2), "Assign._simplify_up", "two keys")
     add("assign_chain", lambda t: t["L"].assign(z=t["L"].a + 1).assign(y=lambda d: d.z * 2) if not _dd(t["L"]) else
-        (lambda x: x.assign(y=x.z * 2))(t["L"].assign(z=t["L"].a + 1)), "Assign", "uses created column")
-    add("astype_dict", lambda t: t["L"].astype({"a": "float64"}), "AsType", "dict dtypes")
-    add("astype_dict2", lambda t: t["L"].astype({"a": "float64", "ab": "float32"}), "AsType", "dict dtypes")
-    add("astype_all", lambda t: t["L"].astype("float64"), "AsType")
-    add("fillna", lambda t: t["L"].fillna(0), "passthrough")
-    add("abs", lambda t: t["L"].abs(), "passthrough")
-    add("clip", lambda t: t["L"].clip(lower=1, upper=5), "passthrough")
-    add("isin", lambda t: t["L"].isin([0, 1, 2]), "passthrough")
-    add("where", lambda t: t["L"].where(t["L"] > 1, -1), "passthrough", "frame-valued condition operand")
-    add("round_dict", lambda t: t["L"].round({"c": 0}), "passthrough", "parameter keyed by column")
-    add("fillna_dict", lambda t: t["L"].fillna({"c": 0}), "passthrough", "parameter keyed by column")
-    add("neg", lambda t: -t["L"], "passthrough")
-    add("cumsum", lambda t: t["L"][["a", "b", "k"]].cumsum(), "Cumulative")
-    add("diff", lambda t: t["L"][["a", "b", "k"]].diff(1), "passthrough")
-    add("repartition", lambda t: t["L"].repartition(npartitions=2) if _dd(t["L"]) else t["L"], "passthrough")
+        (lambda x: x.assign(y=x.z * 2))(t["L"].assign(z=t["L"].a + 1)), "Assign._simplify_up", "uses created column")
+    add("astype_dict", lambda t: t["L"].astype({"a": "float64"}), "AsType._simplify_up[Projection]", "dict dtypes")
+    add("astype_dict2", lambda t: t["L"].astype({"a": "float64", "ab": "float32"}), "AsType._simplify_up[Projection]", "dict dtypes")
+    add("astype_all", lambda t: t["L"].astype("float64"), "AsType._simplify_up[Projection]")
+    add("fillna", lambda t: t["L"].fillna(0), "plain_column_projection[pass-through]")
+    add("abs", lambda t: t["L"].abs(), "plain_column_projection[pass-through]")
+    add("clip", lambda t: t["L"].clip(lower=1, upper=5), "plain_column_projection[pass-through]")
+    add("isin", lambda t: t["L"].isin([0, 1, 2]), "plain_column_projection[pass-through]")
+    add("where", lambda t: t["L"].where(t["L"] > 1, -1), "plain_column_projection[pass-through]", "frame-valued condition operand")
+    add("round_dict", lambda t: t["L"].round({"c": 0}), "plain_column_projection[pass-through]", "parameter keyed by column")
+    add("fillna_dict", lambda t: t["L"].fillna({"c": 0}), "plain_column_projection[pass-through]", "parameter keyed by column")
+    add("neg", lambda t: -t["L"], "plain_column_projection[pass-through]")
+    add("cumsum", lambda t: t["L"][["a", "b", "k"]].cumsum(), "CumulativeAggregations._simplify_up")
+    add("diff", lambda t: t["L"][["a", "b", "k"]].diff(1), "plain_column_projection[pass-through]")
+    add("repartition", lambda t: t["L"].repartition(npartitions=2) if _dd(t["L"]) else t["L"], "plain_column_projection[pass-through]")
     add("categorize", lambda t: (t["L"].assign(b=t["L"].b.astype("str")).categorize(columns=["b"]) if _dd(t["L"])
-        else t["L"].assign(b=t["L"].b.astype("str").astype("category"))), "Categorize", "_projection_passthrough with column-keyed parameter")
+        else t["L"].assign(b=t["L"].b.astype("str").astype("category"))), "plain_column_projection[pass-through]", "_projection_passthrough with column-keyed parameter")
     # --- row selecting / reordering with implicit keys
-    add("filter", lambda t: t["L"][t["L"].a > 2], "Filter")
-    add("filter2", lambda t: (lambda x: x[x.b < 3])(t["L"][t["L"].a > 1]), "Filter", "two filters")
-    add("dropna_sub", lambda t: t["L"].dropna(subset=["c"]), "DropnaFrame", "subset")
-    add("dropna", lambda t: t["L"].dropna(), "DropnaFrame")
-    add("dropdup", lambda t: t["L"].drop_duplicates(subset=["b"]), "DropDuplicates", "subset", unordered=True)
-    add("sort", lambda t: t["L"].sort_values(["b", "a"]), "SortValues")
-    add("set_index", lambda t: t["L"].set_index("k"), "SetIndex", unordered=True)
-    add("set_index_prefix", lambda t: t["L"].set_index("a").add_prefix("p_"), "SetIndex+AddPrefix", "renaming dependent", unordered=True)
-    add("set_index_nodrop", lambda t: t["L"].set_index("k", drop=False), "SetIndex", "drop=False", unordered=True)
-    add("shuffle", lambda t: t["L"].shuffle("b", shuffle_method="tasks") if _dd(t["L"]) else t["L"], "Shuffle", unordered=True)
-    add("nlargest", lambda t: t["L"].nlargest(3, "a"), "NLargest")
-    add("nsmallest2", lambda t: t["L"].nsmallest(3, ["b", "a"]), "NLargest", "two ordering columns")
-    add("sort2_head", lambda t: t["L"].sort_values(["b", "a"]).head(3, npartitions=-1, compute=False) if _dd(t["L"]) else t["L"].sort_values(["b", "a"]).head(3), "NLargest", "NFirst two ordering columns")
-    add("sort_head", lambda t: t["L"].sort_values("a").head(3, npartitions=-1, compute=False) if _dd(t["L"]) else t["L"].sort_values("a").head(3), "NLargest", "NFirst")
-    add("reset_index", lambda t: t["L"].reset_index(), "ResetIndex", noindex=True)
-    add("reset_index_drop", lambda t: t["L"].reset_index(drop=True), "ResetIndex", "drop", noindex=True)
-    add("reset_index_named", lambda t: t["L"].set_index("k").reset_index(), "ResetIndex", "named index", unordered=True, noindex=True)
-    add("reset_index_twice", lambda t: t["L"].reset_index().reset_index(), "ResetIndex", "input has a column 'index'", noindex=True)
-    add("reset_index_colindex", lambda t: t["L"].rename(columns={"ab": "index"}).reset_index(), "ResetIndex", "input has a column 'index'", noindex=True)
-    add("drop", lambda t: t["L"].drop(columns=["a", "c"]), "Drop")
-    add("rolling", lambda t: t["L1"][["a", "b", "k"]].rolling(2).sum(), "RollingReduction", "not grouped")
-    add("explode", lambda t: t["L"].explode("b"), "ExplodeFrame")
+    add("filter", lambda t: t["L"][t["L"].a > 2], "Filter._simplify_up[Projection]")
+    add("filter2", lambda t: (lambda x: x[x.b < 3])(t["L"][t["L"].a > 1]), "Filter._simplify_up[Projection]", "two filters")
+    add("dropna_sub", lambda t: t["L"].dropna(subset=["c"]), "DropnaFrame._simplify_up", "subset")
+    add("dropna", lambda t: t["L"].dropna(), "DropnaFrame._simplify_up")
+    add("dropdup", lambda t: t["L"].drop_duplicates(subset=["b"]), "DropDuplicates._simplify_up", "subset", unordered=True)
+    add("sort", lambda t: t["L"].sort_values(["b", "a"]), "SortValues._simplify_up")
+    add("set_index", lambda t: t["L"].set_index("k"), "SetIndex._simplify_up", unordered=True)
+    add("set_index_prefix", lambda t: t["L"].set_index("a").add_prefix("p_"), "SetIndex._simplify_up", "renaming dependent", unordered=True)
+    add("set_index_nodrop", lambda t: t["L"].set_index("k", drop=False), "SetIndex._simplify_up", "drop=False", unordered=True)
+    add("shuffle", lambda t: t["L"].shuffle("b", shuffle_method="tasks") if _dd(t["L"]) else t["L"], "ShuffleBase._simplify_up", unordered=True)
+    add("nlargest", lambda t: t["L"].nlargest(3, "a"), "NLargest._simplify_up")
+    add("nsmallest2", lambda t: t["L"].nsmallest(3, ["b", "a"]), "NLargest._simplify_up", "two ordering columns")
+    add("sort2_head", lambda t: t["L"].sort_values(["b", "a"]).head(3, npartitions=-1, compute=False) if _dd(t["L"]) else t["L"].sort_values(["b", "a"]).head(3), "NLargest._simplify_up", "NFirst two ordering columns")
+    add("sort_head", lambda t: t["L"].sort_values("a").head(3, npartitions=-1, compute=False) if _dd(t["L"]) else t["L"].sort_values("a").head(3), "NLargest._simplify_up", "NFirst")
+    add("reset_index", lambda t: t["L"].reset_index(), "ResetIndex._simplify_up", noindex=True)
+    add("reset_index_drop", lambda t: t["L"].reset_index(drop=True), "ResetIndex._simplify_up", "drop", noindex=True)
+    add("reset_index_named", lambda t: t["L"].set_index("k").reset_index(), "ResetIndex._simplify_up", "named index", unordered=True, noindex=True)
+    add("reset_index_twice", lambda t: t["L"].reset_index().reset_index(), "ResetIndex._simplify_up", "input has a column 'index'", noindex=True)
+    add("reset_index_colindex", lambda t: t["L"].rename(columns={"ab": "index"}).reset_index(), "ResetIndex._simplify_up", "input has a column 'index'", noindex=True)
+    add("drop", lambda t: t["L"].drop(columns=["a", "c"]), "Drop._simplify_down")
+    add("rolling", lambda t: t["L1"][["a", "b", "k"]].rolling(2).sum(), "RollingReduction._simplify_up", "not grouped")
+    add("explode", lambda t: t["L"].explode("b"), "ExplodeFrame._simplify_up")
     # --- groupby
-    add("gb_sum", lambda t: t["L"].groupby("b").sum(), "groupby", unordered=True)
-    add("gb_count2", lambda t: t["L"].groupby(["b", "k"]).count(), "groupby", "two keys", unordered=True)
-    add("gb_agg", lambda t: t["L"].groupby("b").agg({"a": "sum", "c": "max"}), "groupby", "dict spec", unordered=True)
-    add("gb_first", lambda t: t["L"].groupby("b").first(), "groupby", unordered=True)
-    add("gb_cumsum", lambda t: t["L"].groupby("b").cumsum(), "groupby", "transform")
-    add("gb_dropna_key", lambda t: t["L"].dropna(subset=["c"]).groupby("b").sum(), "DropnaFrame+groupby", unordered=True)
-    add("gb_cov", lambda t: t["L"][["a", "b", "k", "ab"]].groupby("b").cov(), "groupby", "cross-column aggregation", unordered=True)
+    add("gb_sum", lambda t: t["L"].groupby("b").sum(), "groupby_projection", unordered=True)
+    add("gb_count2", lambda t: t["L"].groupby(["b", "k"]).count(), "groupby_projection", "two keys", unordered=True)
+    add("gb_agg", lambda t: t["L"].groupby("b").agg({"a": "sum", "c": "max"}), "groupby_projection", "dict spec", unordered=True)
+    add("gb_first", lambda t: t["L"].groupby("b").first(), "groupby_projection", unordered=True)
+    add("gb_cumsum", lambda t: t["L"].groupby("b").cumsum(), "groupby_projection", "transform")
+    add("gb_dropna_key", lambda t: t["L"].dropna(subset=["c"]).groupby("b").sum(), "DropnaFrame._simplify_up", unordered=True)
+    add("gb_cov", lambda t: t["L"][["a", "b", "k", "ab"]].groupby("b").cov(), "groupby_projection", "cross-column aggregation", unordered=True)
     # --- reductions (labels of the result are column names)
-    add("sum", lambda t: t["L"].sum(), "Reduction", "list selection of a 1-d result")
-    add("max", lambda t: t["L"].max(), "Reduction", "list selection of a 1-d result")
-    add("corr", lambda t: t["L"][["a", "b", "k"]].corr(), "Reduction", "cross-column reduction")
-    add("mode", lambda t: t["L"][["a", "b"]].mode(), "Reduction", "padded per-column results", noindex=True)
+    add("sum", lambda t: t["L"].sum(), "Reduction._simplify_up", "list selection of a 1-d result")
+    add("max", lambda t: t["L"].max(), "Reduction._simplify_up", "list selection of a 1-d result")
+    add("corr", lambda t: t["L"][["a", "b", "k"]].corr(), "Reduction._simplify_up", "cross-column reduction")
+    add("mode", lambda t: t["L"][["a", "b"]].mode(), "Concat._simplify_up", "per-column results assembled by an axis=1 Concat (mode)",
+        noindex=True, extra={"axis": 1})
     # --- two inputs
     for how in ("inner", "left"):
-        add(f"merge_{how}", lambda t, how=how: t["L"].merge(t["R"], on="k", how=how), "Merge", "on", unordered=True, noindex=True)
-    add("merge_sfx", lambda t: t["L"].merge(t["R"], on="k", suffixes=("_l", "")), "Merge", "empty right suffix", unordered=True, noindex=True)
-    add("merge_lr", lambda t: t["L"].merge(t["R"], left_on="b", right_on="k2"), "Merge",
-        "left_on != right_on, a key names a column of the other side", unordered=True, noindex=True)
-    add("merge_rl", lambda t: t["R"].merge(t["L"], left_on="k2", right_on="b"), "Merge",
-        "left_on != right_on, a key names a column of the other side", unordered=True, noindex=True)
-    add("merge_lr_nocoll", lambda t: t["L"][["a", "k", "c"]].merge(t["R"][["k2", "d"]], left_on="k", right_on="k2"), "Merge",
+        add(f"merge_{how}", lambda t, how=how: t["L"].merge(t["R"], on="k", how=how), "Merge._simplify_up[Projection]", "on", unordered=True, noindex=True)
+    add("merge_sfx", lambda t: t["L"].merge(t["R"], on="k", suffixes=("_l", "")), "Merge._simplify_up[Projection]", "empty right suffix", unordered=True, noindex=True)
+    add("merge_lr", lambda t: t["L"].merge(t["R"], left_on="b", right_on="k2"), "Merge._simplify_up[Projection]",
+        "left_on!=right_on key/non-key collision", unordered=True, noindex=True)
+    add("merge_rl", lambda t: t["R"].merge(t["L"], left_on="k2", right_on="b"), "Merge._simplify_up[Projection]",
+        "left_on!=right_on key/non-key collision", unordered=True, noindex=True)
+    add("merge_lr_nocoll", lambda t: t["L"][["a", "k", "c"]].merge(t["R"][["k2", "d"]], left_on="k", right_on="k2"), "Merge._simplify_up[Projection]",
         "left_on != right_on", unordered=True, noindex=True)
-    add("merge_index", lambda t: t["L"].merge(t["R"], left_index=True, right_index=True), "Merge", "index join", unordered=True)
-    add("merge_twokeys", lambda t: t["L"].merge(t["R"].rename(columns={"d": "a"}), on=["k"]), "Merge", "collision of non-keys", unordered=True, noindex=True)
-    add("concat0", lambda t: _concat([t["L"], t["L"].assign(a=t["L"].a + 10)]), "Concat", "same schema")
-    add("concat0_diff", lambda t: _concat([t["L"][["a", "b"]], t["R"][["b", "d"]]]), "Concat", "an input may contribute no requested column")
-    add("concat0_inner", lambda t: _concat([t["L"][["a", "b", "k"]], t["R"][["b", "k", "d"]]], join="inner"), "Concat", "inner")
-    add("concat1", lambda t: _concat([t["L"][["a", "b"]], t["L"][["c", "k"]]], axis=1), "Concat", "axis=1 same index")
-    add("binop_co", lambda t: t["L"][NUM] + t["L"][NUM].fillna(1), "Binop", "co-aligned, same columns")
-    add("binop_scalar", lambda t: t["L"][NUM] * 2, "Binop", "scalar")
-    add("binop_diffcols", lambda t: t["L"][["a", "b"]] + t["L"][["b", "k"]], "Binop", "operands with different columns")
-    add("binop_unaligned", lambda t: t["L"][["a", "b"]] + t["L1"][["a", "b"]], "OpAlignPartitions", "_projection_passthrough with a second frame operand")
-    add("combine_first", lambda t: t["L"][["a", "c"]].combine_first(t["L"][["c", "k"]]), "CombineFirst")
+    add("merge_index", lambda t: t["L"].merge(t["R"], left_index=True, right_index=True), "Merge._simplify_up[Projection]", "index join", unordered=True)
+    add("merge_twokeys", lambda t: t["L"].merge(t["R"].rename(columns={"d": "a"}), on=["k"]), "Merge._simplify_up[Projection]", "collision of non-keys", unordered=True, noindex=True)
+    add("concat0", lambda t: _concat([t["L"], t["L"].assign(a=t["L"].a + 10)]), "Concat._simplify_up", "same schema", extra={"axis": 0})
+    add("concat0_diff", lambda t: _concat([t["L"][["a", "b"]], t["R"][["b", "d"]]]), "Concat._simplify_up",
+        "an input may contribute no requested column", extra={"axis": 0})
+    add("concat0_inner", lambda t: _concat([t["L"][["a", "b", "k"]], t["R"][["b", "k", "d"]]], join="inner"), "Concat._simplify_up", "inner", extra={"axis": 0})
+    add("concat1", lambda t: _concat([t["L"][["a", "b"]], t["L"][["c", "k"]]], axis=1), "Concat._simplify_up", "same index", extra={"axis": 1})
+    add("concat1_diffidx", lambda t: _concat([t["L"][["a", "b"]], t["R"][["d"]]], axis=1), "Concat._simplify_up",
+        "an input may contribute no requested column", extra={"axis": 1})
+    add("concat1_inner", lambda t: _concat([t["L"][["a", "b"]], t["R"][["d"]]], axis=1, join="inner"), "Concat._simplify_up",
+        "an input may contribute no requested column", extra={"axis": 1})
+    add("binop_co", lambda t: t["L"][NUM] + t["L"][NUM].fillna(1), "Binop._simplify_up", "co-aligned, same columns")
+    add("binop_scalar", lambda t: t["L"][NUM] * 2, "Binop._simplify_up", "scalar")
+    add("binop_diffcols", lambda t: t["L"][["a", "b"]] + t["L"][["b", "k"]], "Binop._simplify_up", "operands with different columns")
+    add("binop_unaligned", lambda t: t["L"][["a", "b"]] + t["L1"][["a", "b"]], "OpAlignPartitions._simplify_up", "_projection_passthrough with a second frame operand")
+    add("combine_first", lambda t: t["L"][["a", "c"]].combine_first(t["L"][["c", "k"]]), "CombineFirst._simplify_up")
     return P
 
 
@@ -1165,6 +1171,8 @@ def run_case(case):
         u = e2e.run_or_err(lambda: _compute(build(ddenv), False))
         if u[0] == "err":
             return ("both-raise", f"{r[1]}")
+        if _fails_without_projection(prog, case, pdenv, ddenv):
+            return ("not-projection", f"{r[1]}: the query without the final column selection fails the same way")
         return ("raises", f"optimised raises {r[1]}: {r[2]} (unoptimised plan computes); simplified: {_safe_simplify(q)}")
     got = r[1]
     if _labels(got) != _labels(want):
@@ -1194,6 +1202,24 @@ def run_case(case):
     return None
 
 
+def _fails_without_projection(prog, case, pdenv, ddenv):
+    """is the failure there already without the final column selection? (then it is not a column-pruning matter)"""
+    if case["term"] == "sel":
+        unproj = lambda env: prog.fn(env)  # noqa: E731
+    elif case["term"] == "filter_sel":
+        unproj = lambda env: (lambda x: x[x[case["aux"]] == x[case["aux"]]])(prog.fn(env))  # noqa: E731
+    else:
+        return False
+    try:
+        want = unproj(pdenv)
+    except Exception:  # noqa: BLE001
+        return False
+    r = e2e.run_or_err(lambda: _compute(unproj(ddenv), True))
+    if r[0] == "err":
+        return True
+    return not e2e.same(r[1], want, sort_rows=prog.unordered, drop_index=prog.noindex)
+
+
 def _safe_simplify(q):
     try:
         return str(q.simplify().expr)[:300]
@@ -1207,8 +1233,10 @@ _GENUINE = ("raises", "labels", "differs")
 def _sig(prog, case, kind):
     """decidable signature of a failing case: which rule family, which shape of the program, scalar or list selection,
     one or several consumers, how it fails"""
-    return {"site": prog.site, "trigger": prog.trigger, "selection": "list" if isinstance(case["sel"], list) else "scalar",
-            "consumers": "one" if case["term"] == "sel" else "shared", "kind": kind}
+    sig = {"site": prog.site, "case": prog.case, "selection": "list" if isinstance(case["sel"], list) else "scalar",
+           "consumers": "one" if case["term"] == "sel" else "shared", "kind": kind}
+    sig.update(prog.extra)
+    return sig
 
 
 # minimised witnesses of past findings (fixed defects D1, D17, D21, D23, D24, D25 and the shapes reported by this check);
@@ -1232,6 +1260,8 @@ CORPUS = [
     {"prog": "astype_dict", "term": "sel", "sel": "ab"},
     {"prog": "concat0_diff", "term": "sel", "sel": ["a"]},
     {"prog": "concat0_diff", "term": "sel", "sel": "d"},
+    {"prog": "concat1_diffidx", "term": "sel", "sel": ["a"]},  # D35 (open)
+    {"prog": "concat1_inner", "term": "sel", "sel": ["a"]},
     {"prog": "sum", "term": "sel", "sel": ["a"]},
     {"prog": "suffix_empty", "term": "sel", "sel": ["a"]},
     {"prog": "binop_diffcols", "term": "sel", "sel": ["a"]},
@@ -1311,7 +1341,7 @@ def _cases(ctx, broken):
 def support(ctx, broken):
     sup = Support()
     seen = set()
-    budget = 45 if ctx.quick and not broken else (240 if ctx.quick else 3000)
+    budget = 32 if ctx.quick and not broken else (240 if ctx.quick else 3000)
     import time
 
     t0 = time.time()
@@ -1331,7 +1361,7 @@ def support(ctx, broken):
         if kind not in _GENUINE:
             continue  # unsupported by dask-expr / fails identically without the optimiser: not a C04 matter
         sig = _sig(prog, case, kind)
-        key = tuple(sorted(sig.items()))
+        key = (prog.site, prog.case, tuple(sorted(prog.extra.items())))  # one witness per shape
         if key in seen:
             continue
         seen.add(key)
